@@ -39,11 +39,21 @@ class ConnProp(Prop):
         "produced on the runs (the theorems cover every interleaving of the model)",
     ]
 
+    def corpus(self):
+        import os
+        from ..core import VERIF
+        d = os.path.join(VERIF, "corpus", self.id)
+        return sorted(os.path.join(d, f) for f in os.listdir(d) if f.endswith(".jsonl")) if os.path.isdir(d) else []
+
     def shards(self, tier, seed):
+        # the generated schedules plus one shard per hand-written corpus file
+        # (the corpus shards come last so that shard numbers 0..n-1 keep splitting the exhaustive space)
+        corpus = [["--seed", str(seed), "--replay", f] for f in self.corpus()]
         if tier == "quick":
-            return [["--seed", str(seed), "--n", str(self.quick_n)] for _ in range(8)]
-        return [["--seed", str(seed), "--n", str(self.thorough_n), "--mode", "full%d" % self.exhaustive_len]
-                for _ in range(self.thorough_shards)]
+            return [["--seed", str(seed), "--n", str(self.quick_n)] for _ in range(8)] + corpus
+        n = self.thorough_shards
+        return [["--seed", str(seed), "--n", str(self.thorough_n), "--mode", "full%d/%d" % (self.exhaustive_len, n)]
+                for _ in range(n)] + corpus
 
     def search_shards(self, tier, seed, round_no):
         return [["--seed", str(seed + 7919 * (round_no + 1) + k), "--n", "40"] for k in range(NCPU)]
